@@ -478,7 +478,8 @@ def gen_filtered(rng, o, n):
 
 def gen_depth(rng, o, limits=(0, 1, 2, 9, 10, 11, 127, 254, 255), big=5000):
     out = []
-    shapes = {"[": (b"[", b"]"), '{"a":': (b'{"a":', b"}"), "[{": None}
+    # (the last one nests through the SECOND occurrence of a repeated key: the member that is overwritten)
+    shapes = {"[": (b"[", b"]"), '{"a":': (b'{"a":', b"}"), "[{": None, '{"a":0,"a":': (b'{"a":0,"a":', b"}")}
     for L in limits:
         for n in sorted({L, L + 1, L + 2, big} if L < 200 else {L, L + 1, big}):
             if n == 0:
